@@ -158,3 +158,11 @@ def run(ctx):
     ctx.exhaustive = False
     ctx.assumptions += ['regular expressions are specified extensionally on the string universe StrU of spec/Table.tla; cells are drawn from it',
                         'small-scope: MC/S2C tables have <= 2 rows over 6-10 values; C2S tables <= 30 rows']
+
+
+def replay(ctx, body):
+    c = body['case']
+    o = observe(c['t'], c['cond'], c['op'], c['spelling'], c.get('col'))
+    bad = ctx.validate('Trace_Inc', [o])
+    print('replay:', 'REJECTED %s' % bad if bad else 'accepted', o['out'])
+    return 1 if bad else 0
